@@ -10,8 +10,10 @@ Msb(n) == [i \in 1..n |-> IF i = 1 THEN 1 ELSE 0]
 CellA == [b |-> <<>>, r |-> <<>>]
 CellB == [b |-> <<1, 0, 1>>, r |-> <<[b |-> <<0>>, r |-> <<>>]>>]
 CellC == [b |-> Ones(9), r |-> <<>>]
-AddrA == [wc |-> Zeros(8), hash |-> Zeros(256)]
-AddrB == [wc |-> Ones(8), hash |-> Msb(256)]
+AddrA == [wc |-> Zeros(8), hash |-> Zeros(256), any |-> <<>>]
+AddrB == [wc |-> Ones(8), hash |-> Msb(256), any |-> <<>>]
+AddrC == [wc |-> Zeros(8), hash |-> Ones(256), any |-> <<<<1>>>>]                   \* anycast, depth 1
+AddrD == [wc |-> Msb(8), hash |-> Msb(256), any |-> <<[i \in 1..30 |-> i % 2]>>]    \* anycast, depth 30
 CC0 == [grams |-> <<>>, other |-> <<>>]
 BtLeaf(v) == [leaf |-> <<v>>, kids |-> <<>>]
 BtFork(l, r) == [leaf |-> <<>>, kids |-> <<l, r>>]
@@ -29,7 +31,7 @@ Menu(t) ==
       [] t.k = "VarU" -> {<<>>, <<1>>, <<128>>, <<0, 5>>, Rep(t.n - 1, 255)}
       [] t.k = "VarI" -> {<<>>, <<1>>, <<128>>, <<255>>, <<0, 128>>, Rep(t.n - 1, 255)}
       [] t.k = "Leq" -> {Zeros(BitLen(t.n)), NatBits(1, BitLen(t.n)), NatBits(t.n, BitLen(t.n))}
-      [] t.k = "AddrInt" -> {AddrA, AddrB}
+      [] t.k = "AddrInt" -> {AddrA, AddrB, AddrC, AddrD}
       [] t.k = "AddrExt" -> {<<>>, <<<<>>>>, <<<<1, 0, 1>>>>, <<Ones(64)>>}
       [] t.k = "CC" -> {CC0, [grams |-> <<7>>, other |-> <<>>], [grams |-> Rep(15, 255), other |-> <<>>],
                         [grams |-> <<1>>, other |-> <<[k |-> NatBits(5, 32), v |-> <<9>>]>>],
@@ -104,7 +106,7 @@ RichLeaf(t) ==
       [] t.k = "VarU" -> IF t.n > 2 THEN <<2, 77>> ELSE <<5>>
       [] t.k = "VarI" -> IF t.n > 2 THEN <<255, 3>> ELSE <<251>>
       [] t.k = "Leq" -> NatBits((t.n + 1) \div 2, BitLen(t.n))
-      [] t.k = "AddrInt" -> [wc |-> Pat(8), hash |-> Pat(256)]
+      [] t.k = "AddrInt" -> [wc |-> Pat(8), hash |-> Pat(256), any |-> <<<<1, 0, 1>>>>]
       [] t.k = "AddrExt" -> <<<<1, 0, 1, 1, 0>>>>
       [] t.k = "CC" -> [grams |-> <<2, 77>>, other |-> <<[k |-> NatBits(5, 32), v |-> <<9>>], [k |-> NatBits(70000, 32), v |-> <<1, 2>>]>>]
       [] t.k \in {"RefCell", "RefAny"} -> CellB
